@@ -56,6 +56,11 @@ class EliminateVariable:
                 if is_defined_fun(c):
                     # Avoid cycles with smtlib.InlineDefinedFuns
                     continue
+                if c.is_leaf() and get_symbol_name(c.data) == get_symbol_name(
+                        t.data):
+                    # x and |x| are one symbol, whether it is declared or
+                    # not: SimplifyQuotedSymbols would take the step back
+                    continue
                 if is_var(c):
                     # Avoid cycles with core.ReplaceByVariable, which
                     # replaces a variable by a larger (smaller) one, and
